@@ -229,6 +229,33 @@ CLAIMED = {
              "implementation does not follow the statement; these are proved as model witnesses and recorded as narrow known "
              "findings.",
         design="§7 C34"),
+
+    "C03": dict(
+        category="proof",
+        technique="Lean 4 proof over a fuel-indexed model of the whole of parser.rs + exhaustive correspondence on the real lexer's tokens + tree and value oracle",
+        text="Proved on the parser model M2 (fed the REAL lexer's tokens): for every operand and every list of (operator, "
+             "operand) pairs of any length over all 21 operators, with literal / variable / call / parenthesised operands "
+             "nested to any depth, parse_expression returns the left fold, consumes exactly the chain and emits no "
+             "diagnostics (chain_left_assoc, chain_left_assoc_whole); parenthesised groups stay Parentheses nodes "
+             "(paren_overrides_*). Correspondence: all chains of 1-3 operators x 21 operators x 3 operand shapes (29k) plus "
+             "random longer chains, real tree = model tree = left fold; `garden run -c` values equal the explicitly "
+             "parenthesised chain and Python's left fold.",
+        note=TB + "Residual hypothesis IntTok (the decimal text of an i64 reads back as that integer), discharged for concrete "
+             "literals. Operands such as method calls and strings are covered by correspondence only. Holds with the "
+             "left-associativity fix; the pinned behaviour is kept as pinned_chain_wrong.",
+        design="§7 C03"),
+    "C33": dict(
+        category="proof",
+        technique="Lean 4 partial proof (operator/call/parenthesis fragment) over the parser and printer models + whole-grammar print -> real-parse oracle",
+        text="Proved (parse_print_partial, parse_print_whole_partial): for trees built from integer literals, variables, calls, "
+             "parentheses and binary-operator chains, at any depth and in any context, printing then parsing returns the same "
+             "tree with no diagnostics. For the WHOLE grammar (every expression, statement and definition kind, depth <= 4 "
+             "quick / 6 thorough) generated trees are printed by the model printer, parsed by the real parser and must come "
+             "back identical with no errors; the printer's token stream is compared with the real lexer's.",
+        note=TB + "The theorem is partial: statements, blocks, list/tuple/dict/struct literals, lambdas, strings, floats, "
+             "method/dot/namespace access and definitions are covered by the oracle only. WellFormedTree exclusions (what the "
+             "grammar cannot express) are listed in Props/C33.lean.",
+        design="§7 C33"),
 }
 
 NOT_YET = {}
